@@ -369,6 +369,16 @@ class PathSlicer(Slicer):
                 break
             i -= 1
             limit = 10 ** 9
-        out = [res] if res is not None else [("entry",)]
+        if res is not None:
+            out = [res]
+        elif self.path and self.path[0] != 0:
+            # the path starts in the middle of the function: definitions made before it
+            # are taken from the ordinary (path-insensitive) reaching-definition search
+            saved = self._rd
+            self._rd = {}
+            out = Slicer.reaching(self, l, self.path[0], 0)
+            self._rd = saved
+        else:
+            out = [("entry",)]
         self._rd[key] = out
         return out
